@@ -231,6 +231,22 @@ func (fr *Frame) resolveCallee(c ssa.CallInstruction) calleeInfo {
 	}
 	ci := calleeInfo{fn: fn, bindings: bindings, name: fullName(fn)}
 	ci.contract = fe.eng.contractFor(fn)
+	// a method that implements an interface-method contract owes (and, as a callee, offers) that contract's clauses too:
+	// they are discharged for it wherever the interface contract is in play
+	if fe.eng.inRepo(fn) && fn.Signature.Recv() != nil && (ci.contract == nil || !ci.contract.Assumed) {
+		if extra := fe.eng.ifaceEnsuresFor(fn); len(extra) > 0 {
+			var cp FuncContract
+			if ci.contract != nil {
+				cp = *ci.contract
+				cp.Ensures = append(append([]*Clause{}, cp.Ensures...), extra...)
+			} else if len(fn.Blocks) > 0 && !fr.canInline(fn) {
+				cp = FuncContract{Pkg: fnPkgPath(fn), Name: relName(fn), LoopInv: map[int][]*Clause{}, Nilable: map[string]bool{}, Ensures: extra}
+			} else {
+				return ci
+			}
+			ci.contract = &cp
+		}
+	}
 	return ci
 }
 
